@@ -42,9 +42,18 @@ S = 32768
 FLOOR = -2560   # lg(2^-40)
 
 
+_SPD = [0]
+
+
 def _sp(F):
+    """the sparse container with the planes stored in float64, or - when the values allow it exactly - float32 / int64
+    (cycling): a result is a function of the values, not of the storage dtype"""
     u = lib().utils
-    return u.SparseQuaternionMatrix(*[sparse.csr_matrix(F[..., c]) for c in range(4)], F.shape[:2])
+    _SPD[0] += 1
+    dts = [np.float64] + ([np.float32] if np.array_equal(F.astype(np.float32).astype(np.float64), F) else []) + \
+        ([np.int64] if np.array_equal(np.rint(F), F) and np.max(np.abs(F), initial=0.0) < 2 ** 40 else [])
+    dt = dts[_SPD[0] % len(dts)]
+    return u.SparseQuaternionMatrix(*[sparse.csr_matrix(F[..., c].astype(dt)) for c in range(4)], F.shape[:2])
 
 
 def solver_obj(solver, gamma, max_iter, tol, compute_residuals=True):
